@@ -109,7 +109,18 @@ def run(ctx):
             why = []
             if kind != ("SFloat" if flag else "SInteger"):
                 why.append("result kind %s" % kind)
-            if not (val[0] == "call" and val[1].endswith("::fold")):
+            red = val[1].split("::")[-1].split("<")[0] if val[0] == "call" else ""
+            if val[0] == "call" and (".sum" in val[1] or red in ("sum", "product") or "::sum::" in val[1] or "::product::" in val[1]):
+                # Iterator::sum / product: the documented fold for add (from 0) and multiply (from 1)
+                isum = "sum" in val[1].split("Iterator>::")[-1] if "Iterator>::" in val[1] else ("sum" in red)
+                got = ("Add", "zero") if isum else ("Mul", "one")
+                if got != (want_op, want_init):
+                    why.append("the reduction is %s, documented %s from %s" % ("sum" if isum else "product", want_op, want_init))
+                src = strip(val[2][0]) if val[2] else None
+                getter = "get_floats" if flag else "get_integers"
+                if src is None or not mentions(src, lambda t: t[0] == "call" and t[1].endswith(getter)):
+                    why.append("%s branch does not reduce %s(..)" % (branch, getter))
+            elif not (val[0] == "call" and val[1].endswith("::fold")):
                 why.append("result is %s, not a fold" % show(val)[:80])
             else:
                 it, init, clo = val[2][0], strip(val[2][1]), val[2][2]
